@@ -35,6 +35,8 @@ pub enum ModelParseError {
     StreamNotFound,
     #[error("Position was not found")]
     PositionNotFound,
+    #[error("Position is out of the range of data")]
+    PositionOutOfRange,
 
     #[error("USE_GV is true, but positions for GV is not set")]
     UseGvError,
@@ -155,7 +157,11 @@ fn parse_data_section(
                 .map(|win| {
                     Ok(
                         all_consuming(terminated(WindowParser::parse_window_row, ParseTarget::sp))
-                            .parse(&input[win.0..=win.1])?
+                            .parse(
+                                input
+                                    .get(win.0..=win.1)
+                                    .ok_or(ModelParseError::PositionOutOfRange)?,
+                            )?
                             .1,
                     )
                 })
@@ -183,7 +189,14 @@ where
 {
     use nom::combinator::all_consuming;
 
-    move |input: &'a [u8]| all_consuming(f).parse(&input[range.0..range.1 + 1])
+    move |input: &'a [u8]| match input.get(range.0..=range.1) {
+        Some(section) => all_consuming(f).parse(section),
+        // The header points outside of the data (truncated file, inverted or overlong range).
+        None => Err(nom::Err::Failure(F::Error::from_error_kind(
+            input,
+            nom::error::ErrorKind::Eof,
+        ))),
+    }
 }
 
 #[cfg(test)]
